@@ -903,7 +903,8 @@ class Model(object):
                         row[n] = v
                     else:
                         o['state'][n] = Q
-                        o['assigned'][n] = [None, ''] if a['type'] == 'str' else [None]
+                        o['assigned'][n] = [None, ''] if a['type'] == 'str' else [None, {}] if a['type'] == 'json' \
+                            else [None, []] if a['type'] == 'intarray' else [None]
                         row[n] = None
                 else:
                     o['state'][n] = Q
@@ -1103,7 +1104,7 @@ class Model(object):
             if o['created']:
                 o['committed_create'] = True
                 for n, vs in o['assigned'].items():
-                    if len(vs) > 1 and not (vs[:2] == [None, ''] and len(vs) == 2):
+                    if len(vs) > 1 and not (vs[0] is None and vs[1] in ('', {}, []) and len(vs) == 2):
                         o['assigned'][n] = vs[-1:]
             else:
                 o['assigned'] = {}
@@ -1709,6 +1710,8 @@ class Oracle(object):
         if any(self.actual_pk.get((a['type'], x)) is Ellipsis for x in sym):
             # several objects created without a pk value: which row belongs to which object is not known
             tol |= set(sym) | set(pk for pk in self.s1[a['type']] if pk not in self.s0[a['type']])
+        if self.m.uncertain_end and any(self.actual_pk.get((a['type'], x)) is None for x in sym):
+            return None     # saved, got a pk, then the commit failed: the pk in memory is not in the database
         unsaved = [x for x in tol if is_symbolic(x) and self.canon(a['type'], x) is None]
         if len(unsaved) > 1:
             return None         # several unsaved objects all have the pk None: sizes cannot be compared
@@ -1845,7 +1848,7 @@ class Oracle(object):
             return None
         if mode == 'no':
             return self._fmt(op, out, 'DatabaseSessionIsOver (strict session)')
-        v = self._norm_ref(out['ok'])
+        v = out['ok'] if a['type'] in JSON_TYPES else self._norm_ref(out['ok'])
         if a['kind'] == 'pk':
             pk = self.db_pk(h)
             names = pk_attrs(self.meta, h[0])
